@@ -36,6 +36,18 @@ CLAIMS = {
          "Decides for ALL strings and every reachable sink of the psql and existing-sql drivers: the SQL text argument of each database/sql / sqlx call is built only from constants, numbers, allow-listed configuration fields and values validated for their lexical context; every other segment is reported with its origin and context. Client strings may reach the database only as bound parameters. Second-order flows (values read back from the database) are reported in the thorough tier. Does not decide server-side behaviour.",
          "Trusted: go/ssa value flow as modelled (unknown constructs are treated as client-derived, i.e. default deny); allow-list of configuration fields in props/c20.go; database/sql never interpolates bound parameters into text.",
          "DESIGN.md §4 C20"),
+ "C06": ("SSA dominator-fact analyses over VTA-reachable code: nullable-element dereference, unchecked assertion of request JSON, constant-index length guards; channel typestate over go/cfg; vacuous-guard detection",
+         "Decides for ALL requests, on every engine/server/embedded-driver function reachable from an RPC handler in the VTA call graph, the absence of the enumerated panic constructs: unchecked assertion of request-derived JSON to a concrete kind, dereference of a nullable element (GetCurrent/GetMark/GetVertex/GetEdge/lookup results/mark values) without a dominating nil or IsNull test, constant-index or len-k access without a sufficient dominating length test, close/send on a possibly closed or nil channel variable, guards that can never fire, explicit panic/fatal calls. Does not decide panics inside third-party code, arithmetic outside these shapes, resource exhaustion, or the external-database drivers.",
+         "Trusted: go/ssa, VTA call graph (sound for static and interface calls in the loaded packages), go/cfg; two named exceptions with reasons in props/c06.go.",
+         "DESIGN.md §4 C06"),
+ "C18": ("channel typestate (go/cfg), send/count pairing and batch-flush shape rules, captured-variable analysis (go/types AST); reuses must-Touch and the write-filter rule",
+         "Decides structural necessary conditions for ALL element streams: the bulk handler never closes/sends on a closed or nil stream; every send to a loader is paired with one insert-count increment and every validation failure with one error-count increment and no send; the batcher flushes its partial batches after the loop; the embedded BulkAdd touches the timestamp; the per-element write filter enforces before delivering; loader goroutines capture no variable the receive loop reassigns. Does not decide state equality with one-by-one loading.",
+         "Trusted: go/types, go/cfg.",
+         "DESIGN.md §4 C18"),
+ "C19": ("dispatch totality, vacuous-guard/counter detection, SSA index guards, ordering-domain evaluation of the histogram membership test (truth table over all weak orderings), shape rules (go/types AST, go/ssa)",
+         "Decides structural necessary conditions for ALL inputs: every Aggregate oneof member has an arm; no guard or size counter in the aggregation code is vacuous; finalisers index nothing without a length guard (empty input); the histogram membership test equals b <= v < b+w on every ordering of (v, b, w), the first bucket is floor(min/w)*w and the loop includes max's bucket; count increments once per row; each aggregation reads only its own channel. Decides none of the numeric content.",
+         "Trusted: go/types, go/ssa; the ordering-domain evaluator interprets comparison expressions only.",
+         "DESIGN.md §4 C19"),
 }
 
 PENDING_REASON = "check not built yet in this round; see DESIGN.md §4 for the structural clause planned (static analysis)"
